@@ -29,6 +29,8 @@
 #include <xercesc/validators/DTD/DTDGrammar.hpp>
 #include <xercesc/validators/DTD/XMLDTDDescriptionImpl.hpp>
 #include <xercesc/validators/schema/SchemaGrammar.hpp>
+#include <xercesc/validators/schema/ComplexTypeInfo.hpp>
+#include <xercesc/validators/DTD/DTDElementDecl.hpp>
 #include <xercesc/validators/schema/XMLSchemaDescriptionImpl.hpp>
 #include <xercesc/util/OutOfMemoryException.hpp>
 #include <xercesc/util/SynchronizedStringPool.hpp>
@@ -143,10 +145,56 @@ bool XMLGrammarPoolImpl::clear()
     return false;
 }
 
+//  A locked pool is shared by parsers running in different threads, so nothing
+//  inside its grammars may be created on first use any more: build what the
+//  element declarations otherwise build lazily (content models and the text
+//  form of the content models that error messages use).
+static void completeGrammars(RefHashTableOf<Grammar>* const registry
+                           , MemoryManager* const       memMgr)
+{
+    RefHashTableOfEnumerator<Grammar> grammarEnum(registry, false, memMgr);
+    while (grammarEnum.hasMoreElements())
+    {
+        Grammar& grammar = grammarEnum.nextElement();
+        if (grammar.getGrammarType() == Grammar::SchemaGrammarType)
+        {
+            RefHashTableOf<ComplexTypeInfo>* types =
+                ((SchemaGrammar&) grammar).getComplexTypeRegistry();
+            if (!types)
+                continue;
+
+            RefHashTableOfEnumerator<ComplexTypeInfo> typeEnum(types, false, memMgr);
+            while (typeEnum.hasMoreElements())
+            {
+                ComplexTypeInfo& curType = typeEnum.nextElement();
+                curType.getContentModel();
+                curType.getFormattedContentModel();
+            }
+        }
+        else if (grammar.getGrammarType() == Grammar::DTDGrammarType)
+        {
+            NameIdPoolEnumerator<DTDElementDecl> elemEnum =
+                ((DTDGrammar&) grammar).getElemEnumerator();
+            while (elemEnum.hasMoreElements())
+            {
+                DTDElementDecl& curElem = elemEnum.nextElement();
+                if (curElem.getModelType() == DTDElementDecl::Mixed_Simple ||
+                    curElem.getModelType() == DTDElementDecl::Children)
+                {
+                    curElem.getContentModel();
+                }
+                curElem.getFormattedContentModel();
+            }
+        }
+    }
+}
+
 void XMLGrammarPoolImpl::lockPool()
 {
     if (!fLocked)
     {
+        completeGrammars(fGrammarRegistry, getMemoryManager());
+
         fLocked = true;
         MemoryManager *memMgr = getMemoryManager();
         if(!fSynchronizedStringPool)
